@@ -36,8 +36,13 @@ type PDoc struct {
 }
 
 type POp struct {
-	Kind string `json:"kind"` // bulk | crashin | power | restart | restartcrash
+	Kind string `json:"kind"` // bulk | conc | crashin | power | restart | restartcrash
 	Bulk int    `json:"bulk,omitempty"`
+	// conc: bulks submitted concurrently (start stagger in microseconds); Order = the order in
+	// which they reserved their docs offsets, read from the op log after the run
+	Group   []int `json:"group,omitempty"`
+	Stagger []int `json:"stagger_us,omitempty"`
+	Order   []int `json:"order,omitempty"`
 	K    int    `json:"k,omitempty"`
 	// crash parameters; -1 = chosen at run time (they depend on the block lengths), then stored
 	T  int `json:"t"`
@@ -83,6 +88,7 @@ type result struct {
 	obs   []obs
 	ops   []pop
 	bulks []bulkBytes
+	exts  [][][2]uint64 // per child process: (Ext1, Ext2) of the blocks of the real .meta file at its end
 	err   error // harness-level problem: the history is dropped
 	ntriv bool
 }
@@ -175,6 +181,14 @@ func (x *runner) closeChild() (*crashfs.Trace, []string, error) {
 	if err := tr.Verify(); err != nil {
 		return nil, nil, fmt.Errorf("%w: %v", errHarness, err)
 	}
+	fin := tr.StateAt(len(tr.Ops))
+	for _, name := range fin.FileNames() {
+		if fileKind(name) == "meta" {
+			if ex := metaExts(fin.Files()[name]); len(ex) > 0 {
+				x.res.exts = append(x.res.exts, ex)
+			}
+		}
+	}
 	return tr, calls, nil
 }
 
@@ -225,13 +239,20 @@ func (x *runner) account(tr *crashfs.Trace, calls []string, upto int) ([][]tOp, 
 			fmt.Sscanf(c, "bulk:%d", &bi)
 			x.learnBulk(bi, tr, ws[j])
 		}
+		if strings.HasPrefix(c, "conc:") {
+			var oi int
+			fmt.Sscanf(c, "conc:%d", &oi)
+			if err := x.learnConc(oi, tr, ws[j]); err != nil {
+				return nil, err
+			}
+		}
 		if j >= upto {
 			continue
 		}
 		for _, o := range ws[j] {
 			x.res.ops = append(x.res.ops, o.p)
 		}
-		if strings.HasPrefix(c, "bulk:") {
+		if strings.HasPrefix(c, "bulk:") || strings.HasPrefix(c, "conc:") {
 			x.res.ops = append(x.res.ops, pop{Kind: "A"})
 		}
 	}
@@ -267,6 +288,70 @@ func (x *runner) learnBulk(bi int, tr *crashfs.Trace, w []tOp) {
 	bb.dpay, bb.draw = d[33:], binary.LittleEndian.Uint64(d[9:17])
 	bb.mpay, bb.mraw = m[33:], binary.LittleEndian.Uint64(m[9:17])
 	bb.known = true
+}
+
+// learnConc attributes the block writes of a concurrent group to its bulks: a docs block by the raw
+// length in its header (the sum of 4+len(body) over the bulk's documents; the generator keeps them
+// distinct), a meta block by Ext1 = length of its docs block. Order = docs offsets ascending.
+func (x *runner) learnConc(oi int, tr *crashfs.Trace, w []tOp) error {
+	op := &x.res.plan.Ops[oi]
+	rawOf := map[uint64]int{}
+	for _, bi := range op.Group {
+		raw := uint64(0)
+		for _, d := range x.res.plan.Bulks[bi] {
+			raw += 4 + uint64(len(d.Body))
+		}
+		if _, dup := rawOf[raw]; dup {
+			return fmt.Errorf("%w: concurrent bulks with equal raw size", errHarness)
+		}
+		rawOf[raw] = bi
+	}
+	type dw struct {
+		bi  int
+		off int
+	}
+	byLen := map[int]int{}
+	var dws []dw
+	for _, o := range w {
+		if o.p.Kind == "W" && o.p.File == "docs" {
+			data := tr.Ops[o.idx].Data
+			if len(data) < 33 {
+				continue
+			}
+			bi, ok := rawOf[binary.LittleEndian.Uint64(data[9:17])]
+			if !ok {
+				return fmt.Errorf("%w: docs write of unknown bulk in a concurrent group", errHarness)
+			}
+			bb := &x.res.bulks[bi]
+			bb.dpay, bb.draw = data[33:], binary.LittleEndian.Uint64(data[9:17])
+			byLen[len(data)] = bi
+			dws = append(dws, dw{bi, o.p.Off})
+		}
+	}
+	for _, o := range w {
+		if o.p.Kind == "W" && o.p.File == "meta" {
+			data := tr.Ops[o.idx].Data
+			if len(data) < 33 {
+				continue
+			}
+			bi, ok := byLen[int(binary.LittleEndian.Uint64(data[17:25]))]
+			if !ok {
+				return fmt.Errorf("%w: meta write that matches no docs block of the concurrent group", errHarness)
+			}
+			bb := &x.res.bulks[bi]
+			bb.mpay, bb.mraw = data[33:], binary.LittleEndian.Uint64(data[9:17])
+			bb.known = bb.dpay != nil
+		}
+	}
+	sort.Slice(dws, func(i, j int) bool { return dws[i].off < dws[j].off })
+	op.Order = nil
+	for _, d := range dws {
+		op.Order = append(op.Order, d.bi)
+	}
+	if len(op.Order) != len(op.Group) {
+		return fmt.Errorf("%w: %d docs writes for %d concurrent bulks", errHarness, len(op.Order), len(op.Group))
+	}
+	return nil
 }
 
 func (x *runner) start() error {
@@ -471,6 +556,28 @@ func exec(plan Plan, tmp string) (res *result) {
 			if crashedBefore {
 				ingestAfterCrash = true
 			}
+		case "conc":
+			if x.child == nil {
+				continue
+			}
+			q := cbulkReq{StaggerUs: op.Stagger}
+			for _, bi := range op.Group {
+				q.Bulks = append(q.Bulks, plan.Bulks[bi])
+			}
+			extra, _ := json.Marshal(q)
+			x.calls = append(x.calls, fmt.Sprintf("conc:%d", i))
+			if _, err := x.child.Call(storectl.Req{Op: "cbulk", Extra: extra}); err != nil {
+				res.obs = append(res.obs, obs{Died: true, Why: "concurrent bulks failed: " + short(err.Error())})
+				res.plan.Ops = res.plan.Ops[:i+1]
+				res.plan.Ops[i].Kind = "restart"
+				return
+			}
+			for _, bi := range op.Group {
+				submitted(bi)
+			}
+			if crashedBefore {
+				ingestAfterCrash = true
+			}
 		case "crashin":
 			if x.child == nil {
 				continue
@@ -642,6 +749,12 @@ func coqCase(res *result) (string, bool) {
 		switch o.Kind {
 		case "bulk":
 			fmt.Fprintf(&sb, "IBulk %d", o.Bulk)
+		case "conc":
+			ord := o.Order
+			if len(ord) == 0 {
+				ord = o.Group
+			}
+			fmt.Fprintf(&sb, "IConc %s", natList(ord))
 		case "crashin":
 			fmt.Fprintf(&sb, "ICrashIn %d %d %d %d %d", o.Bulk, o.K, o.T, o.KD, o.KM)
 		case "power":
@@ -725,13 +838,21 @@ func coqCase(res *result) (string, bool) {
 			sb.WriteString("PAck")
 		}
 	}
-	sb.WriteString("]")
+	sb.WriteString("] ")
+	sb.WriteString(extsCoq(res.exts))
 	for i := range res.bulks {
 		if !res.bulks[i].known {
 			// a bulk that was never sent (history cut short) is harmless; one that was sent is not
 			for _, o := range res.plan.Ops {
 				if (o.Kind == "bulk" || o.Kind == "crashin") && o.Bulk == i {
 					return "", false
+				}
+				if o.Kind == "conc" {
+					for _, g := range o.Group {
+						if g == i {
+							return "", false
+						}
+					}
 				}
 			}
 		}
@@ -823,6 +944,45 @@ func (g *gen) history(maxRounds int) Plan {
 	return p
 }
 
+// concurrent bulks of very different size, then a way to stop, a start, sometimes more
+func (g *gen) concurrent() Plan {
+	p := Plan{Class: "concurrent", Seed: g.r.U64()}
+	p.Ops = append(p.Ops, POp{Kind: "restart"})
+	if g.r.Chance(1, 2) {
+		p.Bulks = append(p.Bulks, g.bulk(2))
+		p.Ops = append(p.Ops, POp{Kind: "bulk", Bulk: 0})
+	}
+	rounds := g.r.Range(1, 2)
+	for rd := 0; rd < rounds; rd++ {
+		// A: many documents with long bodies; B: one short document; sometimes C in between
+		spec := GenSpec{Seed: g.r.U64(), N: g.r.Range(25, 70), MinLen: 40, MaxLen: 160, FirstID: g.nextID + 1}
+		a := spec.docs()
+		g.nextID += len(a)
+		group := []int{len(p.Bulks)}
+		p.Bulks = append(p.Bulks, a)
+		p.Bulks = append(p.Bulks, g.bulk(1))
+		group = append(group, len(p.Bulks)-1)
+		stagger := []int{0, g.r.Intn(400)}
+		if g.r.Chance(1, 3) {
+			c := GenSpec{Seed: g.r.U64(), N: g.r.Range(4, 9), MinLen: 10, MaxLen: 40, FirstID: g.nextID + 1}.docs()
+			g.nextID += len(c)
+			p.Bulks = append(p.Bulks, c)
+			group = append(group, len(p.Bulks)-1)
+			stagger = append(stagger, g.r.Intn(400))
+		}
+		p.Ops = append(p.Ops, POp{Kind: "conc", Group: group, Stagger: stagger})
+		if g.r.Chance(1, 3) {
+			p.Ops = append(p.Ops, POp{Kind: "power"})
+		}
+		p.Ops = append(p.Ops, POp{Kind: "restart"})
+	}
+	if g.r.Chance(1, 2) {
+		p.Bulks = append(p.Bulks, g.bulk(2))
+		p.Ops = append(p.Ops, POp{Kind: "bulk", Bulk: len(p.Bulks) - 1}, POp{Kind: "restart"})
+	}
+	return p
+}
+
 // the designed witness shape: bulk, crash inside the next one, start, further bulk, start
 func (g *gen) witness(k, t int, retry bool) Plan {
 	g2 := &gen{r: rng.New(77), nextID: 0} // fixed documents: block lengths are the same for every t
@@ -863,6 +1023,7 @@ func main() {
 		tmp = "/tmp"
 	}
 	var plans []Plan
+	var bigs []bigTrial
 	if *replay != "" {
 		plans = loadReplay(*replay)
 	} else {
@@ -913,6 +1074,17 @@ func main() {
 			g.nextID = 0
 			plans = append(plans, g.history(maxRounds))
 		}
+		nConc, nBig := 40, 24
+		if *tier == "thorough" {
+			nConc, nBig = 300, 150
+		}
+		for i := 0; i < nConc; i++ {
+			g.nextID = 0
+			plans = append(plans, g.concurrent())
+		}
+		for i := 0; i < nBig; i++ {
+			bigs = append(bigs, genBigTrial(g.r, *tier == "thorough"))
+		}
 	}
 	results := make([]*result, len(plans))
 	var wg sync.WaitGroup
@@ -931,6 +1103,42 @@ func main() {
 	}
 	close(ch)
 	wg.Wait()
+	// big concurrent trials (untraced, real timing), checked directly
+	type bigRes struct {
+		fp, what string
+		detail   any
+		err      error
+	}
+	bres := make([]bigRes, len(bigs))
+	bch := make(chan int)
+	var bwg sync.WaitGroup
+	for k := 0; k < min(*workers, 4); k++ {
+		bwg.Add(1)
+		go func() {
+			defer bwg.Done()
+			for i := range bch {
+				fp, what, det, err := runBigTrial(bigs[i], tmp)
+				bres[i] = bigRes{fp, what, det, err}
+			}
+		}()
+	}
+	for i := range bigs {
+		bch <- i
+	}
+	close(bch)
+	bwg.Wait()
+	for i, b := range bres {
+		w.Evals(1)
+		w.Count("big-concurrent-trials")
+		if b.err != nil {
+			w.Count("harness:big-trial-dropped")
+			fmt.Fprintln(os.Stderr, "hC01: big trial dropped:", b.err)
+			continue
+		}
+		if b.fp != "" {
+			w.Violate(b.fp, b.what, map[string]any{"trial": bigs[i], "meta_blocks_ext1_ext2": b.detail})
+		}
+	}
 	dropped := 0
 	for _, res := range results {
 		if res.err != nil {
@@ -946,6 +1154,17 @@ func main() {
 		}
 		for _, o := range res.plan.Ops {
 			w.Count("op:" + o.Kind)
+			if o.Kind == "conc" {
+				inv := false
+				for k := range o.Order {
+					if k < len(o.Group) && o.Order[k] != o.Group[k] {
+						inv = true
+					}
+				}
+				if inv {
+					w.Count("conc:lock-order-differs-from-submission-order")
+				}
+			}
 			if o.Kind == "crashin" {
 				w.Count(fmt.Sprintf("crash-after-op:%d", o.K))
 			}
